@@ -36,6 +36,7 @@ type c13Case struct {
 	G    int    `json:"goroutines"`
 	Rep  int    `json:"rep"`
 	Seed int64  `json:"seed"`
+	Auth string `json:"auth,omitempty"` // "" | LOGIN | SCRAM-SHA-256 | PLAIN: every dial-up authenticates
 }
 
 type c13Viol struct {
@@ -80,7 +81,7 @@ type c13Op struct {
 func c13Run(c c13Case) c13Report {
 	rep := c13Report{Case: c}
 	add := func(key, what, obs string) { rep.Viol = append(rep.Viol, c13Viol{key, what, ev.Trunc(obs, 3000)}) }
-	rng := ev.RngFor(c.Seed, "c13|"+c.Mode, c.G*1000+c.Rep)
+	rng := ev.RngFor(c.Seed, "c13|"+c.Mode+c.Auth, c.G*1000+c.Rep)
 	var jmu sync.Mutex
 	jitter := func() time.Duration {
 		jmu.Lock()
@@ -94,9 +95,19 @@ func c13Run(c c13Case) c13Report {
 		return 0
 	}
 	farm := &refsmtp.Farm{NewConfig: func(int) *refsmtp.Config {
-		return &refsmtp.Config{AllowUTF8: true, Delay: func(string) time.Duration { return jitter() }, DataReadDelay: 15 * time.Microsecond}
+		sc := &refsmtp.Config{AllowUTF8: true, Delay: func(string) time.Duration { return jitter() }, DataReadDelay: 15 * time.Microsecond}
+		if c.Auth != "" {
+			a := &authSrv{User: "c13user", Pass: "c13-secret-pass", Iter: 64, Salt: []byte("c13salt")}
+			sc.Auth = a.handler()
+			sc.Caps = func(int, bool) []string { return []string{"8BITMIME", "SMTPUTF8", "DSN", "AUTH " + c.Auth} }
+		}
+		return sc
 	}}
-	cl, err := mail.NewClient(netHost, mail.WithDialContextFunc(farm.Dial), mail.WithTLSPolicy(mail.NoTLS), mail.WithTimeout(30*time.Second), mail.WithHELO("client.verif.example"))
+	copts := []mail.Option{mail.WithDialContextFunc(farm.Dial), mail.WithTLSPolicy(mail.NoTLS), mail.WithTimeout(30 * time.Second), mail.WithHELO("client.verif.example")}
+	if c.Auth != "" {
+		copts = append(copts, mail.WithSMTPAuth(authTypeNoEnc(c.Auth)), mail.WithUsername("c13user"), mail.WithPassword("c13-secret-pass"))
+	}
+	cl, err := mail.NewClient(netHost, copts...)
 	if err != nil {
 		add("harness", err.Error(), "")
 		return rep
@@ -357,6 +368,9 @@ func c13Child(args []string) int {
 	fmt.Sscan(args[1], &c.G)
 	fmt.Sscan(args[2], &c.Rep)
 	fmt.Sscan(args[3], &c.Seed)
+	if len(args) > 4 {
+		c.Auth = args[4]
+	}
 	rep := c13Run(c)
 	b, _ := json.Marshal(rep)
 	fmt.Printf("C13REPORT %s\n", b)
@@ -375,7 +389,7 @@ func runC13(r *ev.Run, rep *ev.ReplayDoc) ev.Summary {
 	}
 	exe, _ := os.Executable()
 	runChild := func(c c13Case) {
-		cmd := exec.Command(exe, "child", "c13", c.Mode, fmt.Sprint(c.G), fmt.Sprint(c.Rep), fmt.Sprint(c.Seed))
+		cmd := exec.Command(exe, "child", "c13", c.Mode, fmt.Sprint(c.G), fmt.Sprint(c.Rep), fmt.Sprint(c.Seed), c.Auth)
 		cmd.Env = os.Environ()
 		var outb, errb bytes.Buffer
 		cmd.Stdout, cmd.Stderr = &outb, &errb
@@ -442,6 +456,9 @@ func runC13(r *ev.Run, rep *ev.ReplayDoc) ev.Summary {
 			r.Count("runs_with_concurrency", 1)
 		}
 		r.Seen("commit_orders", cr.CommitOrder)
+		if c.Auth != "" {
+			r.Count("runs_with_authentication_"+c.Auth, 1)
+		}
 		r.Eval(cr.CommitOrder, cr.MaxInFlight >= 2)
 	}
 	if rep != nil {
@@ -463,7 +480,12 @@ func runC13(r *ev.Run, rep *ev.ReplayDoc) ev.Summary {
 				rr = 1
 			}
 			for i := 0; i < rr; i++ {
-				cases = append(cases, c13Case{Mode: mode, G: g, Rep: i, Seed: r.Seed})
+				// every other repetition authenticates at each dial-up (stateful mechanisms included)
+				auth := []string{"", "LOGIN", "", "SCRAM-SHA-256", "", "PLAIN"}[(i+g)%6]
+				if mode == "shared" && i%2 == 0 {
+					auth = ""
+				}
+				cases = append(cases, c13Case{Mode: mode, G: g, Rep: i, Seed: r.Seed, Auth: auth})
 			}
 		}
 	}
